@@ -148,8 +148,15 @@ asn_encode(const asn_codec_ctx_t *opt_codec_ctx,
     er = asn_encode_internal(opt_codec_ctx, syntax, td, sptr,
                              callback_failure_catch_cb, &cb_key);
     if(cb_key.callback_failed) {
-        assert(er.encoded == -1);
-        assert(errno == EBADF);
+        /*
+         * Whatever the type-specific encoder made of it (some report ENOENT,
+         * some swallow the failure), the contract is -1/EIO.
+         */
+        er.encoded = -1;
+        if(!er.failed_type) {
+            er.failed_type = td;
+            er.structure_ptr = sptr;
+        }
         errno = EIO;
     }
 
